@@ -49,6 +49,18 @@ CHECKS = {
    category="exploration", design_ref="3/C12", technique="stateful property-based testing (hypothesis RuleBasedStateMachine): parse-request histories on one spec object vs. a fresh object per request",
    text="Histories of parse-type requests (first tree, full forest, abandoned/closed generators, parse_multiple, INCOMPLETE mode, other start symbols, include_controlflow, API parse, fuzz-internal parses, edits of returned trees) on one spec object; every answer must equal the answer of a fresh object built from the same text.",
    note="Differential against a history-free run of the same code; trees compared by shape; requests over the parser budget on the fresh object are skipped."),
+ "C08": dict(
+   category="translation_validation", design_ref="3/C08", technique="property-based testing over generated Python programs (hypothesis AST strategies) + harvested corpus: differential of the code Fandango would run against CPython's own parse, plus a behavioural differential for function definitions",
+   text="Generated Python modules (all statement/expression forms the spec language admits), the Python in the repository's own .fan files, and expressions with symbol references in where / := / {} contexts go through the real reader; the code Fandango would execute is compared AST-for-AST (language-neutral normalisation only) with CPython's parse of the original. Outcome per program: equal, rejected with an error, or violation; acceptance rate per construct is reported.",
+   note="Trusts CPython ast.parse/unparse; nothing is executed except the tiny generated functions of the behavioural differential; f-strings with doubled braces are an open known finding and not generated."),
+ "C11": dict(
+   category="exploration", design_ref="3/C11", technique="property-based testing (hypothesis): every Evaluator.evaluate_individual return during generated runs, and a generated history of direct evaluations/edits, compared with a cache-free evaluation by separately parsed constraint objects",
+   text="Each evaluation result inside generated evolutionary runs (nested quantifiers, shared symbols, computed repetitions) and in direct histories (evaluate / in-place edit / replace / crossover / copy) is compared - exact fitness, per-constraint verdicts, multiset of failing-node paths - with a fresh evaluation of a deep copy by constraint objects whose caches are emptied (every 10th time parsed brand-new).",
+   note="Differential against the same code without history; RNG state is saved/restored around the reference evaluation; hash collisions are not searched for."),
+ "C15": dict(
+   category="exploration", design_ref="3/C15", technique="property-based testing (hypothesis): print -> read round trip on generated specs, compared on an independent IR with witness words, plus constraint verdict comparison on generated trees",
+   text="Generated grammars (postfix operators over groups and over each other, all bound forms, awkward literals, bytes, regexes, parties, generators with arguments) and generated constraint programs are printed the way `fandango convert` prints them and read back; grammar IRs are compared after language-preserving normalisation, differences are decided by a witness word or an open bound that was closed; constraint verdicts are compared on generated trees.",
+   note="IR extraction reads Fandango's node objects of both sides identically; one open known finding (parenthesised and/or re-read as one python expression)."),
 }
 NA = {}
 checks = []
